@@ -306,6 +306,21 @@ def t_conn_infeasible_dv():
     return g.set_start_nodes({r}), dict(sel=[c1], conn=[cc], src=s, tgt=t, dv=[dp, cp, dc])
 
 
+def t_conn_parallel_absent():
+    """a conditional source that may take up to 3 connections next to a permanent open-ended repeatable source and
+    target: when it is absent, its degree list must not raise the number of parallel connections between the others"""
+    B, N, CN, *_ = _imp()
+    g = B()
+    r = N('R')
+    a = [N('A0'), N('A1')]
+    s = [CN('S0', deg_spec='*', repeated_allowed=True), CN('S1', deg_list=[0, 3], repeated_allowed=True)]
+    t = [CN('T0', deg_spec='*', repeated_allowed=True)]
+    c1 = g.add_selection_choice('C1', r, a)
+    g.add_edges([(r, s[0]), (a[1], s[1]), (r, t[0])])
+    cc = g.add_connection_choice('K', s, t)
+    return g.set_start_nodes({r}), dict(sel=[c1], conn=[cc], src=s, tgt=t)
+
+
 def t_conn_group():
     """grouping connector over a permanent member [1] and an option-tied member 1..* (round-0 validator finding)"""
     B, N, CN, G, *_ = _imp()
@@ -570,7 +585,7 @@ TEMPLATES = {
     'two_indep': t_two_indep, 'nested': t_nested, 'nested3': t_nested3, 'incompat': t_incompat, 'incompat3': t_incompat3, 'shared_option': t_shared_option, 'forced': t_forced,
     'dv': t_dv, 'dv_single': t_dv_single, 'dv_or_existence': t_dv_or_existence, 'dv_linked': t_dv_linked, 'dv_or_direct': t_dv_or_direct, 'dv_same_name': t_dv_same_name, 'dv_linked3_cond': t_dv_linked3_cond, 'sel_linked': t_sel_linked, 'sel_forced_linked': t_sel_forced_linked,
     'conn_simple': t_conn_simple, 'conn_cond': t_conn_cond, 'conn_opt_src': t_conn_opt_src,
-    'conn_infeasible_scenario': t_conn_infeasible_scenario, 'conn_infeasible_dv': t_conn_infeasible_dv, 'conn_group': t_conn_group,
+    'conn_infeasible_scenario': t_conn_infeasible_scenario, 'conn_infeasible_dv': t_conn_infeasible_dv, 'conn_parallel_absent': t_conn_parallel_absent, 'conn_group': t_conn_group,
     'conn_group_finite': t_conn_group_finite, 'conn_group_open': t_conn_group_open, 'conn_group_open2': t_conn_group_open2, 'conn_excl': t_conn_excl, 'conn_two': t_conn_two, 'conn_dv': t_conn_dv,
     'conn_excl_shift': t_conn_excl_shift, 'conn_two_infeasible': t_conn_two_infeasible,
     'conn_group_no_counterpart': t_conn_group_no_counterpart, 'conn_cond_choice': t_conn_cond_choice,
